@@ -24,6 +24,8 @@ var Catalog = [][][]Matcher{
 	{{{'e', "a", "1"}}, {{'e', "c", "z"}}},
 	{{{'e', "naïve·name", "ü"}}},
 	{{{'r', "c", ".*z"}, {'n', "b", ""}}},
+	{{{'e', "a", "1"}, {'e', "b", "x"}}},
+	{{{'r', "b", "x|y"}, {'e', "c", "z"}}},
 }
 
 // Panel of label sets.
@@ -36,6 +38,8 @@ var Panel = []map[string]string{
 	{},
 	{"naïve·name": "ü"},
 	{"a": "1", "b": "y", "c": "zz"},
+	{"a": "1", "b": "x"},
+	{"a": "2", "b": "x", "c": "z"},
 }
 
 func PanelTok(r *rand.Rand) string { return "L" + LsStr(hx.Pick(r, Panel)) }
